@@ -64,27 +64,68 @@ inductive ClientRead
   | valueError                   -- client-side `ValueError`
 deriving Repr, DecidableEq
 
-/-- the client side of `read_share_chunk` applied to a server response. -/
-def clientInterpretRead (length : Nat) : ReadResp → ClientRead
+/-- How `read_share_chunk` treats `length = 0` (an HTTP byte range cannot be empty).  The variant in force is
+*generated* from the live client (`Generated.Http.zeroLengthRead`, observed by the extractor on a stub server):
+`raise`  — `Range("bytes", [(o, o)])` raises `ValueError`, nothing is sent (the code before 04453c5);
+`empty`  — returns `b""` without any request (04453c5);
+`probe`  — asks for the one byte at `offset`, drops it (so a missing share still answers 404). -/
+inductive ZeroRead
+  | raise | empty | probe
+deriving Repr, DecidableEq
+
+def ZeroRead.ofName : String → ZeroRead
+  | "empty" => .empty
+  | "probe" => .probe
+  | _ => .raise
+
+/-- the variant the code under verification has -/
+def zeroRead : ZeroRead := ZeroRead.ofName Generated.Http.zeroLengthRead
+
+/-- what the client does before any network traffic -/
+inductive ReadPlan
+  | raise                                     -- client-side `ValueError`
+  | localEmpty                                -- `return b""`, no request
+  | send (h : RangeHdr) (reqLen : Nat)        -- `Range("bytes", [(offset, offset+reqLen)])`
+deriving Repr, DecidableEq
+
+def rangeFor (offset reqLen : Nat) : RangeHdr := ⟨"bytes", [((offset : Int), some ((offset + reqLen : Nat) : Int))]⟩
+
+def clientReadPlan (m : ZeroRead) (offset length : Nat) : ReadPlan :=
+  if length = 0 then
+    match m with
+    | .raise => .raise
+    | .empty => .localEmpty
+    | .probe => .send (rangeFor offset 1) 1
+  else .send (rangeFor offset length) length
+
+/-- the client side of `read_share_chunk` applied to a server response: `reqLen` bytes were asked for, the caller
+wants `length` of them (`reqLen = length` except for the one-byte probe of a zero-length read). -/
+def clientInterpretRead (reqLen length : Nat) : ReadResp → ClientRead
   | .noContent204 => .data []
   | .partial206 start stop body =>
-    if stop - start > length then .valueError          -- "Server sent more than we asked for?!"
+    if stop - start > reqLen then .valueError          -- "Server sent more than we asked for?!"
     else if body.length ≠ stop - start then .valueError
-    else .data body
+    else .data (body.take length)
   | .ok200 _ => .httpError 200
   | .rangeNotSatisfiable416 => .httpError 416
   | .serverError500 => .httpError 500
 
-/-- the `Range` header the client builds: `Range("bytes", [(offset, offset+length)])`; werkzeug refuses to
-build a range with `end ≤ start` (`ValueError` in the client, nothing is sent). -/
-def clientRangeHdr (offset length : Nat) : Option RangeHdr :=
-  if length = 0 then none else some ⟨"bytes", [((offset : Int), some ((offset + length : Nat) : Int))]⟩
+/-- whole HTTP read path on a share that may be missing (`none`: the server answers 404). -/
+def httpReadOpt (m : ZeroRead) (share : Option Bytes) (offset length : Nat) : ClientRead :=
+  match clientReadPlan m offset length with
+  | .raise => .valueError
+  | .localEmpty => .data []
+  | .send h reqLen =>
+    match share with
+    | none => .httpError 404
+    | some d => clientInterpretRead reqLen length (readRange (some (some h)) d)
 
 /-- whole HTTP read path on an existing share with content `d`. -/
-def httpRead (d : Bytes) (offset length : Nat) : ClientRead :=
-  match clientRangeHdr offset length with
-  | none => .valueError
-  | some h => clientInterpretRead length (readRange (some (some h)) d)
+def httpRead (m : ZeroRead) (d : Bytes) (offset length : Nat) : ClientRead := httpReadOpt m (some d) offset length
+
+/-- the direct path on a share that may be missing: `get_buckets(si)[n]` / `slot_readv(si, [n], …)` have no entry -/
+def directReadOpt (share : Option Bytes) (offset length : Nat) : Option Bytes :=
+  share.map (fun d => readShareData d offset length)
 
 /-! ### chunked immutable upload: `BucketWriter` as cells -/
 
